@@ -132,6 +132,15 @@ func randFieldText(r *rng, t reflect.Type, pf [4]int, k fileKnobs) string {
 		return "i" + strconv.FormatInt(int64(r.next()), 10)
 	case reflect.String:
 		s := utf8Samples[r.intn(len(utf8Samples))]
+		if r.chance(25) && plen >= 2 {
+			// fills the field exactly (profile length minus the terminator), or leaves one byte, and
+			// ends in a multi-byte character: the boundary cases of "valid UTF-8 strings that fit"
+			fill := plen - 1 - r.intn(2)
+			tail := []string{"é", "日", "𝄞", "z"}[r.intn(4)]
+			if fill >= len(tail) {
+				s = strings.Repeat("a", fill-len(tail)) + tail
+			}
+		}
 		if k.inDomain {
 			for len(s) > plen-1 && len(s) > 0 {
 				s = s[:len(s)-1]
